@@ -67,6 +67,39 @@ def ell_field_forms(name):
     return res
 
 
+class SubEllipsoid(gc.Ellipsoid):
+    """a user's own subclass of the library's Ellipsoid (adds a label): IS an Ellipsoid"""
+    label = 'user ellipsoid'
+
+
+class SubProjection(gc.Projection):
+    label = 'user projection'
+
+
+def ell_object_forms(name):
+    """the same ellipsoid as OTHER OBJECTS: (form, object, strict).  strict forms must behave exactly like the plain object (an
+    instance of a subclass, a copy, a deep copy, a pickle round trip); the non-strict duck-typed form (another class with the same
+    public fields) may be rejected with an exception, but if it is accepted it must mean the ellipsoid its fields say."""
+    import copy
+    import pickle
+    import types
+    base = ell_obj(name)
+    a, invf = base.semimaj, base.inversef
+    return [('subclass', SubEllipsoid(a, invf), True), ('copy', copy.copy(base), True), ('deepcopy', copy.deepcopy(base), True),
+            ('pickle', pickle.loads(pickle.dumps(base)), True), ('subclass-copy', copy.copy(SubEllipsoid(a, invf)), True),
+            ('duck', types.SimpleNamespace(**vars(gc.Ellipsoid(a, invf))), False)]
+
+
+def prj_object_forms(prj):
+    import copy
+    import pickle
+    import types
+    base = PRJS[prj] if isinstance(prj, str) else prj
+    args = (base.falseeast, base.falsenorth, base.cmscale, base.zonewidth, base.initialcm)
+    return [('subclass', SubProjection(*args), True), ('copy', copy.copy(base), True), ('deepcopy', copy.deepcopy(base), True),
+            ('pickle', pickle.loads(pickle.dumps(base)), True), ('duck', types.SimpleNamespace(**vars(gc.Projection(*args))), False)]
+
+
 def ell_obj(name):
     """the ellipsoid object for a case: shipped ones are the shipped constants; arbitrary ones are built FRESH for every use
     and dropped afterwards (CPython then reuses their address for the next one: a memo keyed on id() or on one parameter
@@ -483,3 +516,9 @@ def lat_lattice_tm(tier, seed):
          82.87, 82.88, 82.89, 82.9, 82.91, 82.92, 83.0, 83.3, 83.7, 83.9, -79.5, -79.9]
     step = 4.0 if tier == 'quick' else 1.0
     return uniq(s + fill(-80.0, 84.0, step, seed, 1))
+
+
+def angdiff(a, b):
+    """smallest absolute difference of two angles in degrees (mod 360)"""
+    d = (float(a) - float(b)) % 360.0
+    return min(d, 360.0 - d)
